@@ -1880,7 +1880,7 @@ func ruleC34cd(c *Ctx, r *Report) {
 }
 
 func init() {
-	register("C05", "Clause decided (the rejection gate only): a statement that would assign a new value to the sharding column is rejected. MP-C05: in plan.handleUpdateAssignmentList and plan.handleInsertOnDuplicate the comparison of an assigned column with the rule's GetShardingColumn() lies inside the loop over the assignments and its true edge reaches only error returns; MP-C05side: those two functions dominate SQL generation in HandleUpdatePlan / HandleInsertStmt with their error edge returning. The first sentence of the property (exactly the matching rows change, affected-row count) is row-level equivalence and is not decided.",
+	register("C05", "Clause decided (the rejection gate only): a statement that would assign a new value to the sharding column is rejected. MP-C05: in plan.handleUpdateAssignmentList and plan.handleInsertOnDuplicate the comparison of an assigned column with the rule's GetShardingColumn() lies inside the loop over the assignments and its true edge reaches only error returns; the rule consulted is the statement table's own rule, not the one named by RouteResult.db/table (the parent, for linked tables); MP-C05side: those two functions dominate SQL generation in HandleUpdatePlan / HandleInsertStmt with their error edge returning; PC5d: the first of several per-statement results is never returned alone (affected rows of the other sub-tables would be dropped). That exactly the matching rows change is row-level equivalence and is not decided.",
 		ruleC05, ruleC05side)
 }
 
@@ -1991,6 +1991,39 @@ func ruleC05(c *Ctx, r *Report) {
 				r.viol(rule, name, cons, c.Pos(b.Pos()), "an assignment to the sharding column can pass without the statement being rejected: the row stays in its table with a key that now routes elsewhere")
 			default:
 				r.ok(rule, name, cons, c.Pos(b.Pos()), "an assignment whose column is the rule's sharding column reaches only error returns")
+			}
+			// the rule consulted is the statement table's own rule, not the one named by RouteResult.db/table (for a linked
+			// table those name the parent, whose sharding column may differ)
+			fRRdb := c.Field(planRel, "RouteResult", "db")
+			fRRtable := c.Field(planRel, "RouteResult", "table")
+			viaRoute := false
+			for _, side := range []ssa.Value{b.X, b.Y} {
+				for _, l := range phiLeaves(side) {
+					call, ok := l.(*ssa.Call)
+					if !ok || !callsIfaceMethod(&call.Call, shardCol) {
+						continue
+					}
+					for _, rl := range phiLeaves(recvOf(&call.Call)) {
+						ex, ok := rl.(*ssa.Extract)
+						if !ok {
+							continue
+						}
+						gc, ok := ex.Tuple.(*ssa.Call)
+						if !ok {
+							continue
+						}
+						for _, a := range gc.Call.Args {
+							if f := loadedField(resolveLoad(stripValue(a))); f != nil && (f == fRRdb || f == fRRtable) {
+								viaRoute = true
+							}
+						}
+					}
+				}
+			}
+			if viaRoute {
+				r.viol(rule, name, cons+":rule-of-the-table", c.Pos(b.Pos()), "the sharding column is taken from the rule named by RouteResult.db/table: for a linked (child) table that is the parent's rule, so assigning the child's own sharding column is accepted")
+			} else {
+				r.ok(rule, name, cons+":rule-of-the-table", c.Pos(b.Pos()), "the rule consulted is looked up for the statement's own table/column, not through the route result")
 			}
 		})
 		if n == 0 {
@@ -2317,7 +2350,7 @@ func ruleC20d(c *Ctx, r *Report) {
 // xs[0] for a []*mysql.Result xs is (i) dominated by len(xs)==1, or (ii) dominated by the plan's single-routed-index
 // predicate (a method whose body is len(<route result>.indexes)==1: one routed index -> one statement -> one result),
 // or (iii) reached after a loop that folds the other elements into xs[0].
-func init() { register("C39", "", ruleC39d) }
+func init() { register("C39", "", ruleC39d); register("C05", "", ruleC39d) }
 
 func ruleC39d(c *Ctx, r *Report) {
 	const rule = "PC5d"
